@@ -132,6 +132,26 @@ def summarize(fb, item, ok_only=True):
                             seen.add(k)
                             res["f1" if v == 1 else "f0"].append(pos)
                             res["events"].append(("flag", v, pos, e[3] if len(e) > 3 else None))
+            elif e[0] == "write" and e[1][1] == -1 and len(e[2]) == 2 and e[2][0] == ("f", "nodes") and e[2][1][0] == "idx":
+                # FullMerkleTree keeps the leaves in the implicit heap at node index capacity - 1 + position: a direct store at
+                # nodes[(capacity + start - 1) + k] is a write of leaf position start + k
+                from .symex import subst, mk_const
+                ix = e[2][1][1]
+                one = mk_const("usize", 1)
+                caps = [("bin", "Shl", one, ("field", ("param", 1), ("f", "depth")))] + \
+                    [x for x in subterms(ix) if x[0] == "call" and x[1].endswith("ZerokitMerkleTree>::capacity")]
+                m_ = {}
+                for c_ in caps:
+                    for add in (("bin", "Add", c_, ("param", 2)), ("bin", "Add", ("param", 2), c_)):
+                        m_[("bin", "Sub", add, one)] = ("param", 2)
+                leafpos = subst(ix, m_)
+                if leafpos != ix:
+                    pos = pos_of(leafpos)
+                    k = ("w", canon(pos))
+                    if k not in seen:
+                        seen.add(k)
+                        res["w"].append(pos)
+                        res["events"].append(("w", None, pos, e[4]))
             elif e[0] == "write" and e[1][1] == -1 and e[2] == (("f", "next_index"),):
                 if ("hw", e[3]) not in seen:
                     seen.add(("hw", e[3]))
@@ -183,6 +203,31 @@ def field_writers(fb, field, files):
                 walk(t["dest"])
         if hit:
             out[path] = it
+    # a private helper that did not exist when the inventory was frozen (an `extract function` refactor) writes on behalf of its
+    # callers: it is replaced by the functions of these files that call it (transitively), which must then be allowed writers
+    from .symex import known_functions
+    known = known_functions()
+    changed = True
+    rounds = 0
+    while changed and rounds < 4:
+        changed = False
+        rounds += 1
+        for path, it in list(out.items()):
+            base = path.split("::{closure")[0]
+            if it.kind == "Closure" or base in known or base.split("@")[0] in known:
+                continue
+            callers = {}
+            for p2, it2 in fb.items.items():
+                if it2.kind not in ("Fn", "AssocFn", "Closure") or it2.file not in files or p2 == path:
+                    continue
+                for b in it2.blocks:
+                    t = b["term"]
+                    if t["k"] == "call" and (t.get("resolved") or t.get("callee") or "") == path:
+                        callers[p2] = it2
+            if callers:
+                del out[path]
+                out.update(callers)
+                changed = True
     return out
 
 
